@@ -358,10 +358,10 @@ class Recorder:
         rec = self
 
         if with_details:
-            def h(*a, details=None, **kw):
+            def h(*a, details=None, **kw) -> None:          # (annotated: check_types looks at annotations)
                 rec.on_handler(hid, a, kw, details, True)
         else:
-            def h(*a, **kw):
+            def h(*a, **kw) -> None:
                 rec.on_handler(hid, a, kw, None, False)
         h.hid = hid
         h.with_details = with_details
@@ -392,6 +392,12 @@ class Recorder:
                 self.bad("argsOk", "handler %d got %r %r, event carried %r" % (hid, a, kw, exp))
             if with_details and (details is None or details.publication != exp[2]):
                 self.bad("argsOk", "handler %d details %r" % (hid, details))
+            disc = getattr(self, "event_disc", None)
+            if with_details and details is not None and disc is not None:
+                got = dict(publisher=details.publisher, publisher_authid=details.publisher_authid, publisher_authrole=details.publisher_authrole)
+                want = dict(publisher=disc.get("publisher"), publisher_authid=disc.get("publisher_authid"), publisher_authrole=disc.get("publisher_authrole"))
+                if got != want:
+                    self.bad("argsOk", "handler %d details disclose %r, EVENT carried %r" % (hid, got, want))
             # details.topic is the topic the event was published to when the router names it (pattern-based subscriptions)
             if with_details and details is not None and getattr(self, "event_topic", None) is not None and details.topic != self.event_topic:
                 self.bad("argsOk", "handler %d details.topic %r, EVENT named %r" % (hid, details.topic, self.event_topic))
@@ -668,9 +674,10 @@ def scenario(rng, profile):
                 # (check_types wraps the handler in a coroutine function: on asyncio its body then runs one loop iteration after
                 # the library has handed it the event, i.e. after the plain handlers of the same subscription - what the driver
                 # records is when bodies run, so the option is only mixed in where it does not change that: on Twisted)
+                was_sync = bool(R.tr.sync_next)
                 fut = s.subscribe(R.handlers[hid], topic, options=opts, check_types=(rng.random() < 0.3 and fw.NAME == "tx"))
                 rid = R.last_req()
-                R.requests[rid] = dict(kind="subscribe", hid=hid, unsub_on_reply=(profile == "c11" and rng.random() < 0.15))
+                R.requests[rid] = dict(kind="subscribe", hid=hid, unsub_on_reply=(profile in ("c11", "c04") and rng.random() < 0.15 and not was_sync))
 
                 def got(sub, rid=rid):
                     R.subs_objs.setdefault((sub.id, hid), []).append(sub)
@@ -698,7 +705,9 @@ def scenario(rng, profile):
             R.expect_sent = dict(uri="com.myapp.proc9", opts=ro)
 
             def f():
-                fut = s.register(R.endpoint, "com.myapp.proc9", options=RegisterOptions(details=True, **ro), check_types=(rng.random() < 0.3))
+                pkw = dict(prefix="com.myapp.") if rng.random() < 0.2 else {}     # (the URI may be given in two parts: prefix + procedure)
+                fut = s.register(R.endpoint, "proc9" if pkw else "com.myapp.proc9", options=RegisterOptions(details=True, **ro),
+                                 check_types=(rng.random() < 0.3), **pkw)
                 rid = R.last_req()
                 R.requests[rid] = dict(kind="register")
 
@@ -820,9 +829,13 @@ def scenario(rng, profile):
             R.event_topic = etopic
             # an event whose delivery the broker wants acknowledged (whether or not it announced the feature)
             ack = p_ == 0 and rng.random() < 0.35
-            rx(message.Event(sub, pubid, args=margs or None, kwargs=mkwargs or None, topic=etopic, x_acknowledged_delivery=(True if ack else None)),
+            # (a broker that discloses the publisher: the three fields arrive in the details, each in its place)
+            disc = rng.choice([None, None, dict(publisher=4711, publisher_authid="alice", publisher_authrole="admin"), dict(publisher=12, publisher_authid="bob")])
+            R.event_disc = disc
+            rx(message.Event(sub, pubid, args=margs or None, kwargs=mkwargs or None, topic=etopic, x_acknowledged_delivery=(True if ack else None), **(disc or {})),
                dict(t="event", sub=sub, p=p_, q=q_, ack=ack, bad=sorted(R.raising_handlers) if ack else []))
             R.event_topic = None
+            R.event_disc = None
             R.reent = None
             R.event_expect = None
         elif t == "invocation":
